@@ -120,19 +120,15 @@ Theorem match_list_matches_in_range : forall l lo hi, sorted l ->
 Proof. exact matches_in_range_spec. Qed.
 Print Assumptions match_list_matches_in_range.
 
-(* "replace_if_longer keeps the longest": REFUTED for the code as written (the
-   arm for "same start as the last match" overwrites `end` without comparing);
-   it holds when the ends for a start arrive in non-decreasing order; and the
-   stored end is always one of the ends that were added for that start. *)
-Theorem match_list_keeps_longest_refuted : ~ add_keeps_longest.
-Proof. exact add_keeps_longest_refuted. Qed.
-Print Assumptions match_list_keeps_longest_refuted.
-
-Theorem match_list_keeps_longest_guarded : forall ms x,
-  ends_arrive_nondecreasing ms -> In x (adds_true ms) ->
-  m_end x = max_list (ends_for (m_start x) ms).
-Proof. exact add_keeps_longest_if_ends_sorted. Qed.
-Print Assumptions match_list_keeps_longest_guarded.
+(* "replace_if_longer keeps the longest": after any sequence of add(_, true) the end
+   stored for a start is the maximum of the ends added for it.  TRUE since commit
+   a09b6a08 (before, the arm for "same start as the last match" overwrote `end`
+   without comparing and the statement was refuted); and the stored end is always one
+   of the ends that were added for that start. *)
+Theorem match_list_keeps_longest : forall ms x,
+  In x (adds_true ms) -> m_end x = max_list (ends_for (m_start x) ms).
+Proof. exact add_keeps_longest_holds. Qed.
+Print Assumptions match_list_keeps_longest.
 
 Theorem match_list_end_was_added : forall ops y,
   In y (run_adds ops) -> In (m_end y) (ends_for (m_start y) (map fst ops)).
@@ -434,15 +430,12 @@ Theorem chain_lazy_end_choice : forall nc c d,
 Proof. exact chain_lazy_end_choice_all_ends. Qed.
 Print Assumptions chain_lazy_end_choice.
 
-(* GREEDY: "the longest" is refuted on the events the implementation produces for
-   /hh.*qq(aqqb)?/s on "hh_qqaqqb" (reports 0..8, the occurrence 0..9 exists): MatchList::add
-   overwrites the end of the last match without comparing.  Accepted as undocumented. *)
-Theorem chain_greedy_not_the_longest :
-  exists pieces gp evs y s e,
-    events_ordered_b evs = true /\ In y (run_chain pieces evs) /\ m_start y = 0%N /\
-    left gp evs 1 s e 0 /\ (m_end y < N.of_nat e)%N.
-Proof. exact chain_greedy_longest_refuted. Qed.
-Print Assumptions chain_greedy_not_the_longest.
+(* GREEDY: the trace that refuted "the longest" before commit a09b6a08 (MatchList::add
+   overwrote the end without comparing) now keeps the longer end *)
+Theorem chain_greedy_trace_keeps_the_longer_end :
+  map (fun y => (m_start y, m_end y)) (run_chain greedy_pieces greedy_events) = [(0, 9)]%N.
+Proof. exact chain_greedy_keeps_the_longer_end. Qed.
+Print Assumptions chain_greedy_trace_keeps_the_longer_end.
 
 (* ---- consecutive jumps of a hex pattern ------------------------------------------------ *)
 (* the jump hex2hir.rs puts in place of two consecutive jumps (the arithmetic is read
